@@ -26,7 +26,7 @@ PROP = {
 TEXT = {
     'design_ref': '§7.8',
     'note': NOTE_COMMON,
-    'technique': 'Lean 4 proof (list-sum algebra over the five split branches) + bit-exact differential correspondence',
+    'technique': 'Lean 4 proof (list-sum algebra over the five split branches) + bit-exact differential correspondence + translator tie (the straight-line powertrain kernels are re-translated from the Rust text on every run and proved equal to the model)',
     'text': 'Kernel-checked for all unit lists and both policies: the shares sum to the request in all five branches with all '
             'denominators derived non-zero from the consist-level limit checks (C10_sum), regeneration only on battery units and '
             'within their published limit (C10_regen, C10_regen_edrv), battery-first (C10_battery_first), the RESGreedy assertion '
